@@ -54,6 +54,21 @@ CLAIMED = {
              "(id/$schema exemption, null under composition, numeric tolerance).",
         tech="Rocq proof (regenerated-term lemmas + orchestration monotonicity) + first-pass correspondence + L0 draft-4 oracle on raw documents",
         ref="DESIGN.md 5/C02"),
+    "C03": dict(
+        text="Coq theorems over a model of the extra rules that consumes the analysed specification (operations, merged parameters, "
+             "operation ids, definitions) exactly as spec.go does: the rules report no error iff the documented condition of every "
+             "modelled rule holds - unique operation ids, unique name+location, path parameters required, at most one body and never "
+             "with form data, placeholders unique and matching the declared path parameters one-to-one, no overlap up to parameter "
+             "names when path uniqueness is on, every required name defined (properties, valid patterns, additionalProperties), paths "
+             "present without '{}' - for both continue-on-errors settings; the early stop only drops errors; placeholder extraction "
+             "finds exactly the well-formed placeholders (two in one segment included) and the stripped form ignores names. Tie: per "
+             "document and configuration, the multiset of fired rules of Go (messages mapped to rule codes) equals the model's. The "
+             "rules outside the model (arrays declare items, references resolve, inherited duplicates, circular ancestry, parameter "
+             "patterns) are decided by the document oracle only: grammar documents must validate, one rule-breaking edit must be reported.",
+        note=TB + "No axioms. go-openapi/loads, analysis and spec (expansion, operation enumeration, parameter merging) produce the "
+             "model's input and are not modelled; five of the documented rules are outside the model (oracle only).",
+        tech="Rocq proof (exactness of each rule and of their conjunction, early-stop inclusion) + fired-rule correspondence + rule-breaking-edit oracle",
+        ref="DESIGN.md 5/C03"),
     "C04": dict(
         text="Coq theorems: (generic) a pool client whose fresh run is disciplined - no tenure redeemed twice, no access after the redeem, "
              "every field written before it is read - issues the same commands, reads and outputs the same values on a real pool, for "
